@@ -475,6 +475,9 @@ func newScript(u *Universe) *Script {
 		"(assert (forall ((s Str)) (! (>= (gstr.len s) 0) :pattern ((gstr.len s)))))",
 		"(assert (forall ((a Str) (b Str)) (! (= (gstr.len (gstr.cat a b)) (+ (gstr.len a) (gstr.len b))) :pattern ((gstr.cat a b)))))",
 		"(assert (forall ((a Str) (b Str) (i Int)) (! (= (gstr.at (gstr.cat a b) i) (ite (< i (gstr.len a)) (gstr.at a i) (gstr.at b (- i (gstr.len a))))) :pattern ((gstr.at (gstr.cat a b) i)))))",
+		"(assert (forall ((a Str) (b Str) (c Str)) (! (= (gstr.cat (gstr.cat a b) c) (gstr.cat a (gstr.cat b c))) :pattern ((gstr.cat (gstr.cat a b) c)))))",
+		"(assert (forall ((a Str)) (! (= (gstr.cat a str_empty) a) :pattern ((gstr.cat a str_empty)))))",
+		"(assert (forall ((a Str)) (! (= (gstr.cat str_empty a) a) :pattern ((gstr.cat str_empty a)))))",
 	)
 	return s
 }
